@@ -10,7 +10,9 @@
 EXTENDS Integers, Sequences, TLC, Json
 CONSTANTS Depth, DcShift, Hook, Side, Pipelined, Mms     \* Mms > 0: the peer's max-message-size, so that SendM is split at link level (one credit, several transfers)     \* Side: "client" | "listener"
 
-Alphabet == {"Send", "SendM", "Grant0", "Grant1", "Grant2", "Grant1Lag", "Grant2Unset", "Drain1", "Drain2", "Echo"}
+\* DetResume: the application detaches the link without closing it and resumes it; the receiver's attach comes with a grant right behind it
+\* (one write), so the session task applies the flow before the link task has finished the attach exchange
+Alphabet == {"Send", "SendM", "Grant0", "Grant1", "Grant2", "Grant1Lag", "Grant2Unset", "Drain1", "Drain2", "Echo"} \cup (IF Side = "client" /\ ~Hook THEN {"DetResume"} ELSE {})
 VARIABLES script
 Init == script = <<>>
 Next == Len(script) < Depth /\ \E e \in Alphabet : script' = Append(script, e)
@@ -52,6 +54,11 @@ Body(sc, i, ns) ==
     [] e = "Drain1" -> <<LFlow([seen |-> 0], 1, TRUE, FALSE)>> \o Body(sc, i + 1, ns)
     [] e = "Drain2" -> <<LFlow([seen |-> 0], 2, TRUE, FALSE)>> \o Body(sc, i + 1, ns)
     [] e = "Echo" -> <<LFlow([seen |-> 0], 1, FALSE, TRUE)>> \o Body(sc, i + 1, ns)
+    [] e = "DetResume" -> <<[e |-> "ADetach", l |-> "L1", closed |-> FALSE, keep |-> TRUE],
+                             [e |-> "PFrame", perf |-> "detach", ch |-> 3, needs_prev |-> TRUE, f |-> [h |-> 5, closed |-> FALSE, err |-> ""]],
+                             [e |-> "AResume", l |-> "L1"],
+                             [e |-> "PFrame", perf |-> "attach", ch |-> 3, needs_prev |-> TRUE, nosettle |-> TRUE, f |-> [name |-> "L1", h |-> 5, role |-> "r", snd |-> 1, rcv |-> 0, mms |-> IF Mms > 0 THEN Mms ELSE -1]],
+                             LFlow([seen |-> 0], 1, FALSE, FALSE)>> \o Body(sc, i + 1, ns)
 \* hook variant: the first send is parked at the schedule point, a grant is applied, then it is released
 HookBody == << [e |-> "HookArm", name |-> "credit.after_failed_check"],
                [e |-> "ASend", l |-> "L1", m |-> 1, len |-> 20],
